@@ -550,6 +550,9 @@ func (in *Interp) include(n *Node) (interface{}, bool) {
 	if f == nil {
 		in.fail(n, "unknown-template", "include of unknown template %s", name)
 	}
+	if f.Broken {
+		in.fail(n, "broken-template", "include of unparsable template %s", name)
+	}
 	in.push(in.table(f))
 	defer in.pop()
 	saved := in.ctx
@@ -1179,6 +1182,9 @@ func (in *Interp) call(at *Node, name string, argExprs []*Expr, piped interface{
 				return hidden{false}
 			}
 			in.fail(at, "unknown-template", "exec of unknown template")
+		}
+		if f.Broken {
+			in.fail(at, "broken-template", "%s of an unparsable template", name)
 		}
 		in.push(in.table(f))
 		defer in.pop()
